@@ -2,6 +2,7 @@ package harness
 
 import (
 	"fmt"
+	"os"
 	"testing"
 
 	"pgregory.net/rapid"
@@ -36,7 +37,96 @@ func deepChain(n int, emptyAt map[int]bool) desc.V {
 	return build(0)
 }
 
+// defaultCacheProcess: this process never replaced the library's own struct-type cache (512 entries).
+var defaultCacheProcess = os.Getenv("VERIF_NO_PROXY") != ""
+
+// manyTypesCase: ONE call whose value holds more distinct struct types than the default type
+// cache has room for (512), so that the entries of objects still being walked are evicted in
+// mid-call - wide (hundreds of marked fields of as many types, rules and marked fields behind them)
+// or deep (a chain of as many types, every level with a rule declared AFTER its link).
+// The types are few per process: three sizes, two marker patterns.
+func manyTypesCase(t *rapid.T) *StructCase {
+	return &StructCase{Many: &ManySpec{N: rapid.SampledFrom([]int{515, 600, 640}).Draw(t, "manyTypes"), Alt: rapid.Bool().Draw(t, "manyAltMarks"), Deep: rapid.Bool().Draw(t, "manyDeep")}}
+}
+
+// ManySpec stands for the type and value of a many-types case (written out, the deep variant
+// is a JSON document nested a thousand levels deep; the case file holds the three parameters).
+type ManySpec struct {
+	N    int  `json:"n"`
+	Alt  bool `json:"alt,omitempty"`
+	Deep bool `json:"deep,omitempty"`
+}
+
+// expanded returns the case with type and value written out.
+func (c *StructCase) expanded() *StructCase {
+	if c.Many == nil {
+		return c
+	}
+	out := *c
+	out.Root, out.Val = c.Many.build()
+	return &out
+}
+
+func (m *ManySpec) build() (desc.T, desc.V) {
+	n, alt := m.N, m.Alt
+	mark := func(i int) string {
+		if alt && i%2 == 1 {
+			return "exist"
+		}
+		return "required|need"
+	}
+	empty := func(i int) bool { return i%7 == 0 || i >= n-20 }
+	if m.Deep {
+		// T0{Next *T1; A0 string} ... the rule of every level comes after the descent
+		var ty desc.T
+		var val desc.V
+		for i := n - 1; i >= 0; i-- {
+			a := desc.F{Name: fmt.Sprintf("A%d", i), T: desc.Scalar("string"), Tags: map[string]string{"valid": fmt.Sprintf("required|a%d", i)}}
+			av := desc.Str("x")
+			if empty(i) {
+				av = desc.V{}
+			}
+			if i == n-1 {
+				ty, val = desc.T{K: "struct", Fields: []desc.F{a}}, desc.V{E: []desc.V{av}}
+				continue
+			}
+			ty = desc.T{K: "struct", Fields: []desc.F{{Name: "Next", T: desc.Ptr(ty), Tags: map[string]string{"valid": mark(i)}}, a}}
+			val = desc.V{E: []desc.V{{E: []desc.V{val}}, av}}
+		}
+		return desc.Ptr(ty), desc.V{E: []desc.V{val}}
+	}
+	ty := desc.T{K: "struct"}
+	val := desc.V{}
+	for i := 0; i < n; i++ {
+		inner := desc.T{K: "struct", Fields: []desc.F{{Name: fmt.Sprintf("A%d", i), T: desc.Scalar("string"), Tags: map[string]string{"valid": fmt.Sprintf("required|a%d", i)}}, {Name: "N", T: desc.Scalar("int")}}}
+		ty.Fields = append(ty.Fields, desc.F{Name: fmt.Sprintf("F%03d", i), T: desc.Ptr(inner), Tags: map[string]string{"valid": mark(i)}})
+		iv := desc.V{E: []desc.V{desc.Str("x"), {I: int64(i + 1)}}}
+		if empty(i) {
+			iv.E[0] = desc.V{}
+		}
+		val.E = append(val.E, desc.V{E: []desc.V{iv}})
+	}
+	ty.Fields = append(ty.Fields, desc.F{Name: "Z1", T: desc.Scalar("string"), Tags: map[string]string{"valid": "required|z1"}},
+		desc.F{Name: "Z2", T: desc.Scalar("int"), Tags: map[string]string{"valid": "ge=5|z2"}})
+	val.E = append(val.E, desc.V{}, desc.V{I: 3})
+	return desc.Ptr(ty), desc.V{E: []desc.V{val}}
+}
+
+// drawManyTypes decides whether this case is a many-types case (often in the process that runs on the
+// library's own cache, now and then elsewhere).
+func drawManyTypes(t *rapid.T) bool {
+	k := rapid.IntRange(0, 79).Draw(t, "manyTypesCase")
+	if defaultCacheProcess {
+		return k%4 == 1
+	}
+	return k == 41
+}
+
 func genC04Case(t *rapid.T) *StructCase {
+	if drawManyTypes(t) {
+		ev.Class("one call over more than 512 distinct struct types")
+		return manyTypesCase(t)
+	}
 	marks := []string{"required|need", "exist", "required|need", "exist", "-", "-"}
 	if rapid.IntRange(0, 39).Draw(t, "wideStruct") == 0 {
 		// a very wide struct: more than 256 fields, rules and marked sub-objects among the last ones
@@ -71,7 +161,7 @@ func genC04Case(t *rapid.T) *StructCase {
 			PerType: map[string]map[string]string{"Tree": {"Left": rapid.SampledFrom([]string{"required|need", "exist"}).Draw(t, "chainMark"), "Name": "required|deep name"}}}
 	}
 	if rapid.IntRange(0, 2).Draw(t, "mode") > 0 {
-		c := genNamedCase(t, namedOpts{roots: []string{"Tree", "Tree", "Top", "Mid"}, marks: marks, msgMode: rapid.SampledFrom([]int{1, 2}).Draw(t, "msgs"),
+		c := genNamedCase(t, namedOpts{roots: []string{"Tree", "Tree", "Top", "Mid", "Alias"}, marks: marks, msgMode: rapid.SampledFrom([]int{1, 2}).Draw(t, "msgs"),
 			maxDepth: ev.Pick(5, 8), density: 6, unscoped: true})
 		if c.Unscoped != nil {
 			// an unscoped rule set belongs to the outermost object only - also when its type recurs further
@@ -159,6 +249,9 @@ func TestC04(t *testing.T) {
 	rapid.Check(t, func(t *rapid.T) {
 		c := genC04Case(t)
 		takeGenFlags()
+		if rapid.IntRange(0, 5).Draw(t, "smallCache") == 3 {
+			c.Cache = rapid.IntRange(1, 3).Draw(t, "cacheCap") // the value may hold more struct types than the type cache
+		}
 		c.pickEntry(rapid.IntRange(0, 7).Draw(t, "entry"))
 		msg, res, skipped := checkC04(c)
 		if skipped != "" {
